@@ -40,16 +40,19 @@ __all__ = [
 logger = logging.getLogger(__name__)
 
 
-def _redshift_histogram(patch: Patch, binning: Binning) -> NDArray:
+def _redshift_histogram(
+    idx: int, patch: Patch, binning: Binning
+) -> tuple[int, NDArray]:
     """Worker function that computes a redshift histgram from a given patch and
-    binning."""
+    binning. Returns the patch index along with the counts since results may
+    arrive in any order."""
     redshifts = patch.redshifts
     weights = patch.weights if patch.has_weights else None
     # apply the same bin membership rule as the trees, (lo, hi] or [lo, hi)
     edges = binning.edges
     bin_idx = np.digitize(redshifts, edges, right=(binning.closed == "right"))
     counts = np.bincount(bin_idx, weights=weights, minlength=len(edges) + 1)
-    return counts[1 : len(edges)].astype(np.float64)
+    return idx, counts[1 : len(edges)].astype(np.float64)
 
 
 def resample_jackknife(observations: NDArray, patch_rows: bool = True) -> NDArray:
@@ -127,15 +130,16 @@ class HistData(CorrData):
 
         patch_count_iter = parallel.iter_unordered(
             _redshift_histogram,
-            catalog.values(),
+            enumerate(catalog.values()),
             func_kwargs=dict(binning=config.binning),
+            unpack=True,
             max_workers=max_workers,
         )
         if progress:
             patch_count_iter = Indicator(patch_count_iter, len(catalog))
 
         counts = np.empty((len(catalog), config.num_bins))
-        for i, patch_count in enumerate(patch_count_iter):
+        for i, patch_count in patch_count_iter:
             counts[i] = patch_count
         parallel.COMM.Bcast(counts, root=0)
 
